@@ -183,7 +183,12 @@ func streamC39(h *H) {
 			if h.Bool() {
 				inv.args = append(inv.args, "--forget")
 			}
-			if h.Bool() {
+			// On the damaged repository rewrite always gets one snapshot id: with several snapshots
+			// the first failing rewrite leaves the pack uploader running and the next callback of
+			// FindAll (already queued in a ParallelList worker) panics with "uploader already
+			// started" in a worker goroutine, which kills the harness process (observation
+			// outside C39, see docs/C39.md).
+			if h.Bool() || rp.variant == "damaged" {
 				inv.args = append(inv.args, short(sn()))
 			}
 		case 8:
@@ -277,6 +282,7 @@ func streamC39(h *H) {
 		h.Rec("args", HexS(strings.Join(inv.args, "\x00")))
 		h.Rec("repo", rp.variant)
 		a15RecState(h, "pre", DumpBackend(inner))
+		h.W.Flush() // a panic in a worker goroutine of the command kills the process: keep the input visible
 		r := cli.Run(inv.args...)
 		if r.Panic != "" {
 			h.Rec("res", Itoa(r.Exit), "panic", HexS(r.Panic))
